@@ -264,7 +264,7 @@ def judgeSound (os ws : List Value) (ro rw : Res Value) : Verdict :=
     | _ => .pass
 
 def isNeverNullOp (op : String) : Bool :=
-  ["equals", "add", "sub", "mul", "div", "mod", "neg", "abs", "lt", "gt", "le", "ge", "not", "and", "or",
+  ["equals", "notequal", "add", "sub", "mul", "div", "mod", "neg", "abs", "lt", "gt", "le", "ge", "not", "and", "or",
    "length", "hasindex", "haselement"].contains op
 
 /-- C01's converse clauses on one run: wholly known operands give a wholly known
